@@ -107,6 +107,216 @@ def _table(paths, st):
     return rows
 
 
+WRAP_TARGET = "subproc_check_boolop"
+DOCUMENTED_VALUE_STMTS = ("ast.Expr", "ast.Assign", "ast.AugAssign", "ast.AnnAssign")
+
+
+def _standalone_wrap(ctx, bp, wr, chain_skip=()):
+    """R3 'standalone-wrap', decided on the helper-transparent view of the wrapper's ``visit`` - wherever the wrap of a
+    value statement sits (a method of its own, in place, behind one merged short-circuit condition, or a helper that
+    returns the new value).
+
+    Roles, not names: the *statement* is the node parameter of ``visit`` and its plain copies (parameter bindings of
+    expanded helpers included); the *value* is any local read from ``<statement>.value`` / ``getattr(<statement>,
+    'value'[, None])``; a *wrap step* is a call of a function that builds the ``ast.Call`` to
+    ``__xonsh__.subproc_check_boolop`` on the value; a *wrap site* stores such a call into ``<statement>.value``
+    (directly, as an arm of a conditional expression, or through a local / a helper's return value).
+
+    Decided by walking the CFG under a scenario with three-valued evaluation of every ``if`` test (single-expression
+    predicates of the module are looked through, `_is_subproc_helper_call` is the family test):
+      * for each documented statement type, value = call of a raising helper  -> every normal path stores the wrap;
+      * value = not a helper call / a helper call that is not in the raising set -> no wrap site can be reached.
+    A test that cannot be evaluated and on which the verdict depends is an AnalysisError, never a pass.
+    Returns (ok, detail, where)."""
+    from ..engine.loader import class_assigns, class_methods
+
+    visit_src = bp.func("_SubprocChainRaiseWrapper.visit", raw=True)
+    st = f"{BP}:_SubprocChainRaiseWrapper.visit"
+
+    def real_strings(fn):
+        return [n.value for n in ast.walk(fn) if isinstance(n, ast.Constant) and isinstance(n.value, str) and not isinstance(parent(n), ast.Expr)]
+
+    module_funcs = {q: f_ for q, f_ in bp.functions() if "." not in q}
+    candidates = dict(module_funcs)
+    candidates.update(class_methods(wr, raw=True))
+    wrap_fns = {n for n, f_ in candidates.items() if any(WRAP_TARGET in s_ for s_ in real_strings(f_)) and any(call_name(c) == "ast.Call" for c in calls_in(f_))}
+    if not wrap_fns:
+        raise AnalysisError(f"{st}: no function builds the call to __xonsh__.{WRAP_TARGET}")
+    skip = {"_recurse", "_visit_boolop", "_is_subproc_helper_call"} | wrap_fns | set(chain_skip)
+    vv = flat(ctx, visit_src, depth=2, skip=tuple(sorted(skip)))
+    cfg = CFG(vv)
+    defs = df.all_defs(vv)
+    STMTS = alias_class(defs, param_name(visit_src, 0))
+    cattrs = class_assigns(wr)
+
+    def is_stmt(e):
+        return isinstance(e, ast.Name) and e.id in STMTS
+
+    def is_value_read(e):
+        if isinstance(e, ast.Attribute) and e.attr == "value" and is_stmt(e.value):
+            return True
+        if isinstance(e, ast.Call) and call_name(e) == "getattr" and not e.keywords and len(e.args) in (2, 3) and is_stmt(e.args[0]) and const_value(e.args[1]) == "value":
+            return len(e.args) == 2 or const_value(e.args[2], default=0) is None
+        return False
+
+    VALS = set()
+    while True:
+        new = {n for n, ds in defs.items() if "." not in n and n not in VALS and ds and all(d.kind in ("assign", "walrus") and d.value is not None and (is_value_read(d.value) or (isinstance(d.value, ast.Name) and d.value.id in VALS)) for d in ds)}
+        if not new:
+            break
+        VALS |= new
+
+    def type_set(t):
+        if isinstance(t, ast.Tuple):
+            parts = [type_set(x) for x in t.elts]
+            return None if any(p is None for p in parts) else set().union(*parts) if parts else set()
+        tx = unparse(t)
+        if re.fullmatch(r"ast\.\w+", tx):
+            return {tx}
+        if isinstance(t, ast.Attribute) and unparse(t.value) in ("self", "type(self)", "self.__class__", wr.name) and t.attr in cattrs:
+            return type_set(cattrs[t.attr])
+        return None
+
+    def atom(e, sc, vals, depth=2):
+        def is_val(x):
+            return (isinstance(x, ast.Name) and x.id in vals) or (vals is VALS and is_value_read(x))
+
+        if is_val(e):  # truthiness of the value: an AST node is truthy
+            return True if sc["helper"] else None
+        if isinstance(e, ast.Call) and not e.keywords:
+            cn = call_name(e)
+            if cn == "isinstance" and len(e.args) == 2:
+                if vals is VALS and is_stmt(e.args[0]):
+                    ts = type_set(e.args[1])
+                    return None if ts is None else sc["stype"] in ts
+                if is_val(e.args[0]) and unparse(e.args[1]) == "ast.Call":
+                    return True if sc["helper"] else None
+                return None
+            if len(e.args) == 1 and is_val(e.args[0]):
+                if cn == "_is_subproc_helper_call":
+                    return sc["helper"]
+                f_ = module_funcs.get(cn)
+                if f_ is not None and depth > 0 and cn not in wrap_fns:
+                    body = [s_ for s_ in f_.body if not (isinstance(s_, ast.Expr) and isinstance(s_.value, ast.Constant))]
+                    a_ = f_.args
+                    if len(body) == 1 and isinstance(body[0], ast.Return) and body[0].value is not None and len(a_.args) == 1 and not (a_.posonlyargs or a_.kwonlyargs or a_.vararg or a_.kwarg):
+                        inner = frozenset({a_.args[0].arg})
+                        return ev3(body[0].value, lambda x: atom(x, sc, inner, depth - 1))
+            return None
+        if isinstance(e, ast.Compare) and len(e.ops) == 1:
+            l, op, r = e.left, e.ops[0], e.comparators[0]
+            if is_val(l) and isinstance(r, ast.Constant) and r.value is None and isinstance(op, (ast.Is, ast.IsNot)):
+                if not sc["helper"]:
+                    return None
+                return isinstance(op, ast.IsNot)
+            callee_attr = isinstance(l, ast.Attribute) and l.attr == "attr" and isinstance(l.value, ast.Attribute) and l.value.attr == "func" and is_val(l.value.value)
+            if callee_attr and isinstance(op, (ast.In, ast.NotIn)) and unparse(r) == "_RAISING_SUBPROC_HELPERS":
+                if sc["attrin"] is None:
+                    return None
+                return sc["attrin"] == isinstance(op, ast.In)
+            if callee_attr and isinstance(op, (ast.Eq, ast.NotEq)) and const_value(r) == WRAP_TARGET:
+                # a helper call is never the wrapping call itself; anything else may be (the chain pass ran first)
+                if not sc["helper"]:
+                    return None
+                return isinstance(op, ast.NotEq)
+        return None
+
+    def walker(sc):
+        cache = {}
+
+        def decide(n):
+            if n not in cache:
+                cache[n] = ev3(n.ast.test, lambda x: atom(x, sc, VALS))
+            return cache[n]
+
+        def skip_edge(a, b, label):
+            if label in ("exc", "raise"):
+                return True
+            if a.kind == "if" and label in ("true", "false"):
+                v = decide(a)
+                return v is not None and v != (label == "true")
+            return False
+
+        return skip_edge, decide
+
+    # ---- wrap sites
+    def wrap_call(e):
+        return isinstance(e, ast.Call) and last_attr(e) in wrap_fns and len(e.args) == 1 and not e.keywords and ((isinstance(e.args[0], ast.Name) and e.args[0].id in VALS) or is_value_read(e.args[0]))
+
+    def arms(e, extra=()):
+        if isinstance(e, ast.IfExp):
+            return arms(e.body, extra + ((e.test, True),)) + arms(e.orelse, extra + ((e.test, False),))
+        return [(e, extra)]
+
+    def stored(n):
+        """the expression a statement stores into <statement>.value (`s.value = e` or `setattr(s, 'value', e)`), else None"""
+        a = n.ast
+        if isinstance(a, ast.Assign) and len(a.targets) == 1 and isinstance(a.targets[0], ast.Attribute) and a.targets[0].attr == "value" and is_stmt(a.targets[0].value):
+            return a.value
+        if isinstance(a, ast.Expr) and isinstance(a.value, ast.Call) and call_name(a.value) == "setattr" and len(a.value.args) == 3 and not a.value.keywords and is_stmt(a.value.args[0]) and const_value(a.value.args[1]) == "value":
+            return a.value.args[2]
+        return None
+
+    stores = [n for n in cfg.nodes if n.kind == "stmt" and stored(n) is not None]
+    sites = []  # (node whose reachability decides, extra guards, store node, carrier local or None)
+    for s_ in stores:
+        for e, extra in arms(stored(s_)):
+            if wrap_call(e):
+                sites.append((s_, extra, s_, None))
+            elif isinstance(e, ast.Name) and "." not in e.id:
+                for d in defs.get(e.id, []):
+                    if d.kind == "assign" and d.value is not None:
+                        for e2, extra2 in arms(d.value):
+                            if wrap_call(e2):
+                                for dn in cfg.nodes_of(d.stmt):
+                                    sites.append((dn, extra + extra2, s_, e.id))
+    all_wraps = [c for c in calls_in(vv) if last_attr(c) in wrap_fns and not getattr(enclosing_stmt(c), "_xv_call_marker", False)]
+    if not all_wraps or not stores:
+        return False, "nothing wraps the value of a value statement" if not all_wraps else "the wrapped value is never stored back into the statement", loc(visit_src)
+    if not sites:
+        raise AnalysisError(f"{st}: {len(all_wraps)} wrap call(s) ({', '.join(sorted({short(enclosing_stmt(c), 60) for c in all_wraps}))}) but none is stored into <statement>.value in a recognised way")
+    where_ = loc(sites[0][2].ast)
+
+    def carried(site, skip_edge):
+        """the wrapped value bound at `site` reaches its store on every normal path, not re-bound on the way"""
+        dn, _extra, store, local = site
+        if local is None:
+            return True
+        okc, _p = cfg.must_pass([dn], lambda m: m is store, exits=("exit",), skip_edge=skip_edge)
+        seen = cfg.reach([dn], stop=lambda m: m is store, skip_edge=skip_edge)
+        rebound = any(m is not store and m is not dn and m.ast is not None and any(m.ast is d.stmt for d in defs.get(local, [])) for m in seen)
+        return okc and not rebound
+
+    def undecided(skip_edge, decide):
+        live = cfg.reach([cfg.entry], skip_edge=skip_edge)
+        return sorted({unparse(n.ast.test) for n in live if n.kind == "if" and decide(n) is None})
+
+    for stype in DOCUMENTED_VALUE_STMTS:
+        # (a) the value is a call of a raising helper: the wrap is stored on every normal path
+        sc = dict(stype=stype, helper=True, attrin=True)
+        skip_edge, decide = walker(sc)
+        sat = [s_ for s_ in sites if all(ev3(t, lambda x: atom(x, sc, VALS)) is p for t, p in s_[1]) and carried(s_, skip_edge)]
+        nodes = {s_[0] for s_ in sat}
+        reached, path = cfg.must_pass([cfg.entry], lambda m: m in nodes, exits=("exit",), skip_edge=skip_edge)
+        if not reached:
+            und = undecided(skip_edge, decide) + [unparse(t) for s_ in sites for t, p in s_[1] if ev3(t, lambda x: atom(x, sc, VALS)) is None]
+            if und:
+                raise AnalysisError(f"{st}: cannot decide whether the value of an {stype} statement that is a raising-helper call is wrapped: unrecognised test(s) {und}")
+            return False, f"{stype} statement whose value is a call of a raising helper: not wrapped on {cfg.fmt_path(path)}", where_
+        # (b) the value is not a helper call / a helper call outside the raising set (`!()`): never wrapped
+        for label, sc in (("is not a subprocess helper call", dict(stype=stype, helper=False, attrin=None)), ("is a helper call outside the raising set", dict(stype=stype, helper=True, attrin=False))):
+            skip_edge, decide = walker(sc)
+            live = cfg.reach([cfg.entry], skip_edge=skip_edge)
+            for s_ in sites:
+                if s_[0] not in live or any(ev3(t, lambda x: atom(x, sc, VALS)) is (not p) for t, p in s_[1]):
+                    continue
+                und = undecided(skip_edge, decide) + [unparse(t) for t, p in s_[1] if ev3(t, lambda x: atom(x, sc, VALS)) is None]
+                if und:
+                    raise AnalysisError(f"{st}: cannot decide that the value of an {stype} statement that {label} stays unwrapped: unrecognised test(s) {und}")
+                return False, f"{stype} statement whose value {label} is wrapped too (the raising-set test does not guard the wrap)", loc(s_[2].ast)
+    return True, f"{len(sites)} wrap site(s); statement={sorted(STMTS)} value={sorted(VALS)} wrap={sorted(wrap_fns)}", where_
+
+
 def check(ctx):
     ctx.not_decided += [
         "short-circuit evaluation itself (Python's and/or over CommandPipeline.__bool__)",
@@ -314,9 +524,8 @@ def check(ctx):
                 deep = True  # explicit recursion into nested chains
         uses_pred = any(isinstance(c, ast.Call) and call_name(c) == "_is_subproc_helper_call" for c in ast.walk(scope))
         ctx.ob("R3", f"{BP}:{bc.name if bc is not None else '_SubprocChainRaiseWrapper._visit_boolop'}", "the predicate that decides whether the outermost chain is wrapped looks for subprocess operands at any depth (chains of groups such as `a && b || c && d` have no plain command directly under the top operator)", deep and uses_pred, key="contains-subproc|shallow", where=loc(bc if bc is not None else e_))
-    mw = bp.func("_SubprocChainRaiseWrapper._maybe_wrap_stmt_value")
-    ok = any(call_name(c) == "_is_raising_subproc_helper_call" for c in calls_in(mw)) and any("self._wrap(" in unparse(n) for n in walk_local(mw) if isinstance(n, ast.Assign))
-    ctx.ob("R3", f"{BP}:_SubprocChainRaiseWrapper._maybe_wrap_stmt_value", "a standalone raising-helper call is wrapped", ok, key="standalone-wrap")
+    ok, why, where_ = _standalone_wrap(ctx, bp, wr)
+    ctx.ob("R3", f"{BP}:_SubprocChainRaiseWrapper.visit", "a standalone raising-helper call is wrapped", ok, key="standalone-wrap", detail=why, where=where_)
     irh = bp.func("_is_raising_subproc_helper_call")
     ctx.ob("R3", f"{BP}:_is_raising_subproc_helper_call", "membership is tested against _RAISING_SUBPROC_HELPERS", "_RAISING_SUBPROC_HELPERS" in unparse(irh), key="raising-test")
     # Execer.parse: every transformed tree passes the wrapper pass
